@@ -1,6 +1,6 @@
 //! C10 — all API routes agree; rendering is deterministic; render trees are reusable.
 use super::common::*;
-use crate::cfg::{free_fn, render, render_route, staged_renders, CfgSpec, Deco, Rend, Route, StagedKind};
+use crate::cfg::{free_fn, render, render_route, staged_renders, staged_shared_dom, CfgSpec, Deco, Rend, Route, StagedKind};
 use super::fuzzsub::FuzzSub;
 use crate::engine::{PropSub, Property, Stats};
 use crate::gen::{self, census, Doc, Mutation, G};
@@ -150,6 +150,107 @@ pub fn hist_case(g: G, mutate: bool) -> BoxedStrategy<HistCase> {
         .boxed()
 }
 
+/// One parsed DOM, several configurations: every step builds a render tree from the shared DOM
+/// with one configuration and renders it with a configuration that has the same build-time
+/// settings (CSS sources) but possibly other render-time options and another decorator.
+#[derive(Clone, Debug, Serialize, Deserialize, PartialEq, Eq, Hash)]
+pub struct SharedDomCase {
+    pub doc: Doc,
+    /// (build configuration, render configuration, width)
+    pub steps: Vec<(CfgSpec, CfgSpec, usize)>,
+}
+
+/// Options consumed by dom_to_render_tree rather than by the rendering: the CSS sources and
+/// `do_decorate` (which config::plain() includes).
+fn build_time_decorate(c: &CfgSpec) -> bool {
+    c.decorate || c.deco == Deco::Plain
+}
+
+pub fn check_shared_dom(case: &SharedDomCase, st: &mut Stats) -> Result<(), String> {
+    let html = case.doc.to_html().into_bytes();
+    for (b, r, _) in &case.steps {
+        if b.doc_css != r.doc_css || b.user_css != r.user_css || b.agent_css != r.agent_css || build_time_decorate(b) != build_time_decorate(r) {
+            return Err("harness: build and render configuration must agree on the build-time settings (CSS sources, do_decorate)".into());
+        }
+    }
+    st.sample(|| json!({"html": short(&String::from_utf8_lossy(&html), 300), "steps": case.steps.iter().map(|(b, r, w)| format!("build {} / render {} @{}", cfg_brief(b), cfg_brief(r), w)).collect::<Vec<_>>() }));
+    let got = match staged_shared_dom(&html, &case.steps) {
+        Rend::Ok(v) => v,
+        other => return Err(format!("shared-DOM route failed before rendering: {:?}", other.kind())),
+    };
+    let mut mixed = false;
+    for (i, (b, r, w)) in case.steps.iter().enumerate() {
+        let fresh = render(r, &html, *w);
+        if let Some(bad) = fresh.bad() {
+            return Err(format!("one-shot render: {} (w={})", bad, w));
+        }
+        if !same(&got[i], &fresh) {
+            return Err(format!(
+                "step #{} (tree built from the shared DOM with {}, rendered with {} at width {}) differs from a fresh one-shot rendering with the rendering configuration\n staged={}\n fresh ={}\n html={}",
+                i, cfg_brief(b), cfg_brief(r), w, describe(&got[i]), describe(&fresh), short(&String::from_utf8_lossy(&html), 600)
+            ));
+        }
+        if b != r {
+            mixed = true;
+        }
+        st.class(fresh.kind());
+    }
+    let css_varies = case.steps.windows(2).any(|p| p[0].0.user_css != p[1].0.user_css || p[0].0.doc_css != p[1].0.doc_css || p[0].0.agent_css != p[1].0.agent_css);
+    if css_varies {
+        st.class("css_sources_change_between_conversions_of_one_dom");
+    }
+    if mixed {
+        st.class("render_config_differs_from_build_config");
+    }
+    if case.steps.len() >= 2 && (mixed || css_varies) {
+        st.nontrivial(case);
+    }
+    Ok(())
+}
+
+const SHARED_SHEETS: &[&str] = &[
+    "p { color: #010203 }",
+    "li:nth-child(2) { color: #a0b0c0 }",
+    "li:nth-child(3) { background-color: #112233 }",
+    ".c0 { display: none }",
+    "em, strong { color: #445566 }",
+    "td { white-space: pre }",
+    "div > p { color: red }",
+];
+
+pub fn shared_dom_case(g: G) -> BoxedStrategy<SharedDomCase> {
+    // a render configuration derived from the build configuration: same CSS sources, other
+    // render-time options, possibly another decorator
+    let step = (cfg_any(), cfg_any(), prop::bool::weighted(0.5), prop::collection::vec(0usize..SHARED_SHEETS.len(), 0..3), any::<bool>(), 1usize..=80).prop_map(|(mut b, mut r, same, sheets, doc_css, w)| {
+        b.user_css = sheets.iter().map(|k| SHARED_SHEETS[*k].to_string()).collect();
+        b.agent_css = vec![];
+        b.doc_css = doc_css;
+        if same {
+            r = b.clone();
+        } else {
+            r.user_css = b.user_css.clone();
+            r.agent_css = b.agent_css.clone();
+            r.doc_css = b.doc_css;
+            // `do_decorate` (part of config::plain()) is consumed when the tree is built
+            let flag = build_time_decorate(&b);
+            if flag {
+                if r.deco != Deco::Plain {
+                    r.decorate = true;
+                }
+            } else {
+                r.decorate = false;
+                if r.deco == Deco::Plain {
+                    r.deco = Deco::PlainNoDecorate;
+                }
+            }
+        }
+        (b, r, w)
+    });
+    (styled_hist_case(g), prop::collection::vec(step, 1..=4))
+        .prop_map(|(h, steps)| SharedDomCase { doc: h.doc, steps })
+        .boxed()
+}
+
 /// Declarations html2text understands, for style attributes on random elements.  The oracle is
 /// route equality, so any declaration is in the domain.
 const STYLE_DECLS: &[&str] = &[
@@ -196,12 +297,13 @@ pub fn property() -> Property {
     Property {
         id: "C10",
         level: "exploration",
-        rule: "documents (grammar, and byte-mutated) x configurations (standard decorators, option mixes, ASCII custom decorator) x histories of <= 6 renders (route in {string, lines, coloured-identity}, width in {0, tiny, w, w+k, arbitrary; repeats}) executed against ONE render tree built once and cloned per render (sub-check history_styled: style attributes with white-space / colour / display / height declarations on random elements incl. rows and cells, use_doc_css); oracle: every result equals a fresh one-shot string_from_read at that width (TooNarrow included), two identical one-shot calls are equal, lines/coloured/staged-coloured one-shot routes equal the string route, free functions equal their config:: spellings. Non-trivial = >= 3 renders over >= 2 distinct widths of a document with a table or list, with a TooNarrow after a successful render; distinct by the whole case.",
+        rule: "documents (grammar, and byte-mutated) x configurations (standard decorators, option mixes, ASCII custom decorator) x histories of <= 6 renders (route in {string, lines, coloured-identity}, width in {0, tiny, w, w+k, arbitrary; repeats}) executed against ONE render tree built once and cloned per render (sub-check history_styled: style attributes with white-space / colour / display / height declarations on random elements incl. rows and cells, use_doc_css); (sub-check shared_dom: ONE parsed DOM converted several times with different configurations, incl. other CSS sources, each tree rendered with a configuration that has the same CSS sources but possibly other render-time options or decorator; each result equals the one-shot rendering with the rendering configuration); oracle: every result equals a fresh one-shot string_from_read at that width (TooNarrow included), two identical one-shot calls are equal, lines/coloured/staged-coloured one-shot routes equal the string route, free functions equal their config:: spellings. Non-trivial = >= 3 renders over >= 2 distinct widths of a document with a table or list, with a TooNarrow after a successful render; distinct by the whole case.",
         assumptions: vec!["identity colour map for the coloured routes", "histories of at most 6 renders"],
         hang_is_violation: false,
         subs: vec![
             PropSub::new("history", 12_000, 120_000, move || hist_case(g.clone(), false), check_history).with_validity(|c| c.doc.valid() && !c.ops.is_empty()).boxed(),
             PropSub::new("history_styled", 8_000, 80_000, move || styled_hist_case(G::default().with_ids()), check_history).with_validity(|c| c.doc.valid() && !c.ops.is_empty()).boxed(),
+            PropSub::new("shared_dom", 6_000, 60_000, move || shared_dom_case(G::default().with_ids()), check_shared_dom).with_validity(|c| c.doc.valid() && !c.steps.is_empty() && c.steps.iter().all(|(b, r, _)| b.doc_css == r.doc_css && b.user_css == r.user_css && b.agent_css == r.agent_css && build_time_decorate(b) == build_time_decorate(r))).boxed(),
             PropSub::new("history_mutated", 4_000, 40_000, move || hist_case(g2.clone(), true), check_history).with_validity(|c| c.doc.valid() && !c.ops.is_empty()).boxed(),
             FuzzSub { name: "fuzz_render", target: "fuzz_render", props: &["C10"], seconds: 120 }.boxed(),
         ],
